@@ -187,6 +187,7 @@ class Ref(object):
         self.pat = None         # sparsity pattern [(i, j)] copied from the real object (sparse only)
         self.patdoc = False     # True: .pat is what the manual documents for this result -> compared
         self.mask = None        # list of bool: positions whose value the documentation defines
+        self.wrap = None        # |c| of a real remainder: results that differ by c are the same residue
 
     # -- basic -------------------------------------------------------------
     @property
@@ -427,8 +428,6 @@ class Ref(object):
     def __setitem__(self, key, val):
         # right-hand side: "a scalar (i.e., a number or a 1 by 1 dense matrix), a sequence of
         # numbers, or a dense or sparse matrix"
-        if key is self or (isinstance(key, tuple) and any(k is self for k in key)):
-            raise UNSPECIFIED("the assigned matrix is its own index")
         try:
             (scalar, pos, (r, c)), (kind, rhs) = all_of(lambda: self._resolve(key), lambda: self._rhs_class(val))
         except RAISES as e:
@@ -615,6 +614,7 @@ class Ref(object):
             r.alt = alt
         if tc != "i":
             r.scale = [abs(x) + abs(cc) for x in av]
+            r.wrap = abs(cc)    # a quotient that rounds to an integer moves the result by c: same residue
         return r
 
     def __pow__(self, e):
@@ -715,6 +715,7 @@ class Ref(object):
         self.v = res.v
         self.scale = res.scale
         self.alt = res.alt
+        self.wrap = res.wrap
         return self
 
     def __iadd__(self, o):
@@ -1589,7 +1590,7 @@ def snapshot(obj):
 RTOL = 1e-14
 
 
-def value_mismatch(tc, got, want, scale, rtol=RTOL, mask=None):
+def value_mismatch(tc, got, want, scale, rtol=RTOL, mask=None, wrap=None):
     """-> (index, got, want, err/scale) of the first mismatching element, or None; and the
     largest err/scale seen (for calibration)"""
     worst = 0.0
@@ -1604,6 +1605,8 @@ def value_mismatch(tc, got, want, scale, rtol=RTOL, mask=None):
         if tc == "i" or scale is None:
             return (k, g, w, float("inf")), float("inf")
         err = abs(g - w)
+        if wrap is not None:
+            err = min(err, abs(err - wrap))
         s = scale[k]
         if err != err:
             return (k, g, w, float("inf")), float("inf")
@@ -1799,9 +1802,9 @@ class Lockstep(object):
                 self.fail("%s:pattern" % label, "%s stores the entries %s, documented triplet description: %s" %
                           (name, sorted(snap.pat), sorted(r.pat)))
                 return False
-        bad, worst = value_mismatch(r.tc, snap.v, r.v, r.scale, mask=r.mask)
+        bad, worst = value_mismatch(r.tc, snap.v, r.v, r.scale, mask=r.mask, wrap=r.wrap)
         if bad is not None and r.alt is not None:
-            bad2, worst2 = value_mismatch(r.tc, snap.v, r.alt, r.scale, mask=r.mask)
+            bad2, worst2 = value_mismatch(r.tc, snap.v, r.alt, r.scale, mask=r.mask, wrap=r.wrap)
             if bad2 is None:
                 bad, worst = None, worst2
                 self.ctx.count("unspec.alternative-convention-taken")
@@ -1816,7 +1819,7 @@ class Lockstep(object):
             return False
         if adopt:
             r.v, r.scale, r.alt, r.free = snap.v, None, None, ()
-            r.pat, r.patdoc, r.mask = snap.pat, False, None
+            r.pat, r.patdoc, r.mask, r.wrap = snap.pat, False, None, None
         return True
 
     def compare_all(self, label):
@@ -2239,7 +2242,7 @@ def index_src(rng, dim, ls):
         return "list-empty", "[]", False
     return kind, rng.choice(cands), False
 
-PRIORITY = ["pool-imat", "imat-2d", "imat-neg", "imat-oor", "imat-empty", "imat", "list-neg", "list-oor",
+PRIORITY = ["self-imat", "pool-imat", "imat-2d", "imat-neg", "imat-oor", "imat-empty", "imat", "list-neg", "list-oor",
             "list-empty", "list", "negint", "int-oor", "bad-dmat", "bad-float", "bad-none", "bad-str", "slice", "int"]
 
 def primary(k1, k2):
